@@ -18,7 +18,7 @@ from harness import common as C
 
 RULE = ('histories over the alphabet {read_x, read_y, read_r, read_t, crop, pad1, pad21, mask, mask_r, fill, spike_clip, '
         'remove_piston, remove_tiptilt, remove_power, recenter, latcal2, latcal037, strip_latcal, filter}: exhaustive up to '
-        'length 3 (quick) / 4 (thorough; 5 over the coordinate-relevant sub-alphabet) by prefix-shared DFS on configurations '
+        'length 3 on 6 configurations and 2 on the other 26 (quick) / 4 on 4 and 3 on the other 28, 5 over the coordinate-relevant sub-alphabet on 2 (thorough) by prefix-shared DFS on configurations '
         '(shape in 8x8, 9x7, 12x9, 7x10; NaN pattern none / circular / ragged edge / interior dropouts; dx in 1, 0.37), plus '
         'seeded random histories up to length 40; every step of every history is one case; a case is non-trivial unless '
         'the operation is a bare read on an object whose caches are already populated; distinct = distinct '
@@ -546,7 +546,7 @@ def correspondence(ctx):
     order = list(ctx.rng.permutation(len(cfgs)))
     widen = 1 if ctx.widen else 0
     # exhaustive, prefix-shared
-    ndeep = ctx.scale(6 + 2 * widen, 8)
+    ndeep = ctx.scale(6 + 2 * widen, 4)
     deep = [cfgs[k] for k in order[:ndeep]]
     mid = [cfgs[k] for k in order[ndeep:]]
     for cfg in deep:
@@ -558,11 +558,11 @@ def correspondence(ctx):
         _dfs(run, cfg, make_obj(cfg), [], [], ALPHABET, ctx.scale(2, 3))
     run.flush()
     if ctx.thorough:
-        for cfg in deep[:4]:
+        for cfg in mid[:2]:
             _dfs(run, cfg, make_obj(cfg), [], [], COORD_ALPHABET, 5)
             run.flush()
     # random long histories with value-level comparison at every step
-    nrand = ctx.scale(120, 1500)
+    nrand = ctx.scale(120, 1000)
     for _ in range(nrand):
         cfg = dict(cfgs[int(ctx.rng.integers(len(cfgs)))], data_seed=int(ctx.rng.integers(1, 10 ** 6)))
         L = int(ctx.rng.integers(4, 41))
